@@ -55,6 +55,14 @@ TIMES = np.array([0.3, 1.0, 1.7, 2.4])
 class Adapter(object):
     cls = None
 
+    def zero_names(self):
+        """parameters for which 0 is an ordinary value (fixing a parameter
+        at 0 / at a python int is still fixing it)"""
+        toy = [n for n in self.full_names if n in ('k', 'b')]
+        pop = [n for n in self.full_names
+               if n.startswith(('Mean ', 'Log mean ')) or ' Cov. ' in n]
+        return toy + pop
+
     def names(self, obj):
         return list(obj.get_parameter_names())
 
@@ -166,6 +174,9 @@ class ToyMechAdapter(Adapter):
 class SbmlMechAdapter(ToyMechAdapter):
     cls = 'ReducedMechanisticModel(sbml)'
     rtol = 1e-7
+
+    def zero_names(self):
+        return []
 
     def __init__(self, rng):
         self._init_mode(rng)
@@ -610,6 +621,12 @@ def _random_history(rng, ad, full, length):
         names = [full[i] for i in rng.permutation(len(full))[:k]]
         x = ad.point(rng)
         val = {n: float(x[full.index(n)]) for n in full}
+        for n in ad.zero_names():
+            r = rng.random()
+            if r < 0.2:
+                val[n] = [0.0, 0, np.float64(0.0)][int(rng.integers(3))]
+            elif r < 0.3:
+                val[n] = [1, np.int64(1)][int(rng.integers(2))]
         if op in ('fix', 'refix'):
             d = {n: val[n] for n in names}
         elif op == 'release':
